@@ -604,6 +604,15 @@ func lRunPath(c *lchain, p lpath, r *core.Result, verbose bool) (trace []string,
 		if minerStep {
 			mode = "miner"
 		}
+		if strings.HasPrefix(diag, "tx-refused(") && int(s) < h-1 {
+			// A transaction that the node's admission check refuses while the node's stable block is below the
+			// block's parent: the check reads the node's STABLE state. That does not depend on the kind of
+			// height nor on how the node got behind (lagging confirms, a restart that lost them, a sibling):
+			// one class, named the same in every tier and however much of the bound a run completed.
+			fp := fmt.Sprintf("%s/local/%s/%s/height=any/%s-node/var=stable-pointer(stable<parent)", prop, what, diag, mode)
+			violate(fp, fmt.Sprintf("%s (block %d = %s block, this node's stable block %d, restarted=%v, node life %s); %s", text, h, lHeightKind(uint32(h)), s, restarted, p.Kind, cs.String()), cs)
+			return
+		}
 		if p.Kind != "stable-pointer" {
 			// is the extra variable needed? The same node life without restarts, siblings and twins differs from the
 			// reference node in the position of the stable pointer only: if it fails in the same way at the same
